@@ -810,7 +810,18 @@ def m_str(x='', *rest):
         raise Unsupported(f"str({type(x).__name__})")
     if deep_sym(x):
         return OpaqueStr()
-    return str(x)
+    tx = type(x)
+    if _is_ofx(tx) and tx not in NATIVE_TYPES:
+        for b in tx.__mro__:
+            if '__str__' in vars(b):
+                f = vars(b)['__str__']
+                if isinstance(f, types.FunctionType) and _is_ofx(b):
+                    return call(f, x)
+                break
+    try:
+        return str(x)
+    except TypeError:
+        return OpaqueStr()      # a native __str__/__repr__ met symbolic members: only message text is lost
 
 
 def m_repr(x):
@@ -1052,7 +1063,7 @@ MODELS.update({int: m_int, str: m_str, len: m_len, sum: m_sum, bool: m_bool, abs
                all: m_all, bytes: m_bytes, repr: m_repr, format: m_format,
                isinstance: m_isinstance, type: m_type, getattr: m_getattr, setattr: m_setattr,
                hasattr: m_hasattr, print: m_print})
-ALWAYS_MODEL.update({isinstance, type, getattr, setattr, hasattr, print})
+ALWAYS_MODEL.update({isinstance, type, getattr, setattr, hasattr, print, str})
 
 
 # ---------------------------------------------------------------- f-strings / format
@@ -1112,10 +1123,16 @@ def fstr(*parts):
                     out += r
             elif deep_sym(v):
                 opaque = True
+            elif _is_ofx(type(v)) and spec == '' and not isinstance(v, (str, int, float)):
+                r = m_str(v)
+                if isinstance(r, OpaqueStr):
+                    opaque = True
+                else:
+                    out += chars(r)
             else:
                 try:
                     out += list(format(v, spec))
-                except Unsupported:
+                except (Unsupported, TypeError):
                     opaque = True
         else:
             out += list(p)
